@@ -1128,7 +1128,15 @@ class WriteTool(BaseTool):
             )
 
         path_obj = Path(target_path)
-        file_exists = path_obj.exists()
+        try:
+            file_exists = path_obj.exists()
+        except OSError as e:
+            # Path.exists() only swallows "not found"-style errors; EACCES/EIO/... on the stat
+            # propagated out of the tool as an unhandled exception.
+            return self._error_envelope(
+                target_path,
+                [{"code": "E_READ", "message": f"Cannot access target path: {str(e)}"}],
+            )
 
         # Handle modes based on content vs changes
         baseline_content_for_diff = ""
